@@ -1086,3 +1086,288 @@ func (c *Ctx) r0119(pk *packages.Package) {
 	}
 	c.R.Floor(rule, "swaps in hoistVars", n, 3)
 }
+
+// R01.20: the zero test of a numeric literal knows the digits of its kind.
+func (c *Ctx) r0120(pk *packages.Package) {
+	const rule = "R01.20"
+	c.R.Rule(rule, "js.isFalsy decides whether a numeric literal is zero by scanning its bytes: a byte either makes the literal truthy (the function returns) or is passed over / ends the scan. For every numeric token kind the branch handles — read off its condition over the token type — and every non-zero digit of that kind (decimal and integer 1-9, binary 1, octal 1-7, hexadecimal 1-9 a-f A-F), the scan, evaluated for that (kind, byte), must return truthy. An `e` or `b` that is skipped as exponent marker or radix prefix whatever the kind makes `0x0e1` and `0x0b` zero: `x=0x0e1?1:2` → `x=2`")
+	info := pk.TypesInfo
+	fd := c.fn(rule, pk, "isFalsy")
+	if fd == nil {
+		return
+	}
+	dep := c.P.Dep(load.ParseMod + "/js")
+	kind := func(name string) (int64, bool) {
+		if dep == nil {
+			return 0, false
+		}
+		k, ok := dep.Types.Scope().Lookup(name).(*types.Const)
+		if !ok {
+			return 0, false
+		}
+		return constantInt64(k)
+	}
+	digits := map[string]string{"DecimalToken": "123456789", "IntegerToken": "123456789", "BinaryToken": "1", "OctalToken": "1234567", "HexadecimalToken": "123456789abcdefABCDEF"}
+	// the scan: a range over a byte slice whose body returns
+	var loop *ast.RangeStmt
+	ast.Inspect(fd.Body, func(q ast.Node) bool {
+		rs, ok := q.(*ast.RangeStmt)
+		if !ok || rs.Value == nil || !isByteSlice(info.TypeOf(rs.X)) {
+			return true
+		}
+		if flow.Contains(rs.Body, func(z ast.Node) bool { _, isRet := z.(*ast.ReturnStmt); return isRet }) {
+			loop = rs
+		}
+		return true
+	})
+	if loop == nil {
+		c.R.Unres(rule, "js.isFalsy/digit scan", c.pos(fd), "no range over the literal's bytes with a return in its body")
+		return
+	}
+	cname := nospace(str(loop.Value))
+	// the token-type variable: the one compared with the numeric kinds in the enclosing condition
+	var guard ast.Expr
+	ttName := ""
+	for p := c.P.Parent(loop); p != nil; p = c.P.Parent(p) {
+		if ifs, ok := p.(*ast.IfStmt); ok && ifs.Body.Pos() <= loop.Pos() && loop.End() <= ifs.Body.End() && strings.Contains(str(ifs.Cond), "HexadecimalToken") {
+			guard = ifs.Cond
+			ast.Inspect(ifs.Cond, func(q ast.Node) bool {
+				if be, ok := q.(*ast.BinaryExpr); ok && be.Op == token.EQL {
+					for _, pr := range [][2]ast.Expr{{be.X, be.Y}, {be.Y, be.X}} {
+						if strings.HasSuffix(str(pr[1]), "HexadecimalToken") {
+							ttName = nospace(str(pr[0]))
+						}
+					}
+				}
+				return true
+			})
+			break
+		}
+	}
+	if guard == nil || ttName == "" {
+		c.R.Unres(rule, "js.isFalsy/digit scan", c.pos(loop), "the branch over the numeric token kinds was not found")
+		return
+	}
+	// boolean / byte locals defined once before the loop from the token type (isDec := tt == …)
+	type localDef struct {
+		name string
+		e    ast.Expr
+	}
+	var locals []localDef
+	ast.Inspect(fd.Body, func(q ast.Node) bool {
+		as, ok := q.(*ast.AssignStmt)
+		if !ok || as.Tok != token.DEFINE || len(as.Lhs) != 1 || len(as.Rhs) != 1 || as.Pos() > loop.Pos() {
+			return true
+		}
+		if id, ok := as.Lhs[0].(*ast.Ident); ok && strings.Contains(str(as.Rhs[0]), ttName) {
+			if b, isB := info.TypeOf(id).Underlying().(*types.Basic); isB && b.Kind() == types.Bool {
+				locals = append(locals, localDef{id.Name, as.Rhs[0]})
+			}
+		}
+		return true
+	})
+	// simulate the body for (kind, byte): true = the scan returns (truthy)
+	var runStmts func(list []ast.Stmt, env map[string]int64) (returned, decided bool)
+	runStmts = func(list []ast.Stmt, env map[string]int64) (bool, bool) {
+		for _, st := range list {
+			switch s := st.(type) {
+			case *ast.ReturnStmt:
+				return true, true
+			case *ast.BranchStmt:
+				return false, true
+			case *ast.IfStmt:
+				var cur ast.Stmt = s
+				for cur != nil {
+					ifs, ok := cur.(*ast.IfStmt)
+					if !ok {
+						if blk, isBlk := cur.(*ast.BlockStmt); isBlk {
+							if r, d := runStmts(blk.List, env); d {
+								return r, true
+							}
+						}
+						break
+					}
+					if ifs.Init != nil {
+						return false, false
+					}
+					v, ok := evalIntExpr(info, ifs.Cond, env)
+					if !ok {
+						return false, false
+					}
+					if v != 0 {
+						if r, d := runStmts(ifs.Body.List, env); d {
+							return r, true
+						}
+						break
+					}
+					cur = ifs.Else
+				}
+			default:
+				// other statements (assignments to counters) do not decide
+			}
+		}
+		return false, false
+	}
+	n := 0
+	for kname, ds := range digits {
+		kv, ok := kind(kname)
+		if !ok {
+			c.R.Unres(rule, "js.isFalsy/"+kname, c.pos(loop), "token kind constant not found in parse/js")
+			continue
+		}
+		env := map[string]int64{ttName: kv}
+		for _, l := range locals {
+			if v, ok := evalIntExpr(info, l.e, env); ok {
+				env[l.name] = v
+			}
+		}
+		handled, ok := evalIntExpr(info, guard, env)
+		if !ok || handled == 0 {
+			continue
+		}
+		n++
+		var zeroish []string
+		undecided := false
+		for _, d := range ds {
+			env[cname] = int64(d)
+			returned, decided := runStmts(loop.Body.List, env)
+			if !decided {
+				// falling through the body: the byte is passed over
+				returned = false
+				// distinguish "could not evaluate" from "fell through": re-run to see whether any condition failed to evaluate
+				okAll := true
+				ast.Inspect(loop.Body, func(q ast.Node) bool {
+					if ifs, isIf := q.(*ast.IfStmt); isIf {
+						if _, ok := evalIntExpr(info, ifs.Cond, env); !ok {
+							// short-circuit may hide unevaluable operands; only a top-level failure counts
+							if _, ok2 := evalIntExpr(info, ifs.Cond, env); !ok2 {
+								okAll = false
+							}
+						}
+					}
+					return true
+				})
+				if !okAll {
+					undecided = true
+				}
+			}
+			if !returned {
+				zeroish = append(zeroish, string(d))
+			}
+		}
+		construct := "js.isFalsy/non-zero digits of " + kname + " make the literal truthy"
+		if undecided {
+			c.R.Unres(rule, construct, c.pos(loop), "the scan is not a function of the token kind and the current byte alone")
+			continue
+		}
+		c.R.Check(len(zeroish) == 0, rule, construct, c.pos(loop), fmt.Sprintf("%d digits evaluated", len(ds)), "the digit(s) "+strings.Join(zeroish, " ")+" of a "+kname+" are passed over or end the scan: a literal whose other digits are zeros is taken for 0 (`x=0x0e1?1:2` → `x=2`, `x=0x0b?1:2` → `x=2`)")
+	}
+	c.R.Floor(rule, "numeric token kinds handled by the zero test", n, 4)
+}
+
+// R01.21: a declaration is dropped only when defining it does nothing.
+func (c *Ctx) r0121(pk *packages.Package) {
+	const rule = "R01.21"
+	c.R.Rule(rule, "js.optimizeStmt replaces a block that holds nothing but a class declaration (or a let/const declaration) by an empty statement — nobody can refer to the binding. Defining a class is not nothing: the heritage expression, computed member names, static initializers and static blocks run (`{class A extends f(){}}` calls f). Every `return &js.EmptyStmt{}` that is dominated by a successful type assertion to *js.ClassDecl is dominated by the false outcome of hasSideEffects over the asserted value; the let/const clause returns the empty statement only when the list of initializers that have side effects is empty")
+	info := pk.TypesInfo
+	fd := c.fn(rule, pk, "optimizeStmt")
+	if fd == nil {
+		return
+	}
+	g := c.graph(pk, fd)
+	n := 0
+	for _, y := range g.Nodes {
+		rs := retStmt(y)
+		if rs == nil || len(rs.Results) != 1 {
+			continue
+		}
+		ue, ok := ast.Unparen(rs.Results[0]).(*ast.UnaryExpr)
+		if !ok || ue.Op != token.AND {
+			continue
+		}
+		cl, ok := ue.X.(*ast.CompositeLit)
+		if !ok || namedTypeName(info.TypeOf(cl)) != pjs+".EmptyStmt" {
+			continue
+		}
+		// dominated by ok of `v, ok := X.(*js.ClassDecl)`?
+		var classVal string
+		underClass := false
+		judged := false
+		for _, f := range g.DomFacts(y) {
+			if f.Test.Kind != flow.KCond {
+				continue
+			}
+			if id, isId := ast.Unparen(f.Test.Expr).(*ast.Ident); isId && f.Value {
+				if ta, isTA := c.singleDef(pk, id).(*ast.TypeAssertExpr); isTA && ta.Type != nil && namedTypeName(deref(info.TypeOf(ta.Type))) == pjs+".ClassDecl" {
+					underClass = true
+					// the value variable of that assertion
+					ast.Inspect(fd.Body, func(q ast.Node) bool {
+						as, ok := q.(*ast.AssignStmt)
+						if ok && len(as.Lhs) == 2 && len(as.Rhs) == 1 && ast.Unparen(as.Rhs[0]) == ast.Expr(ta) {
+							classVal = str(as.Lhs[0])
+						}
+						return true
+					})
+				}
+			}
+			if call, isCall := ast.Unparen(f.Test.Expr).(*ast.CallExpr); isCall && !f.Value && strings.HasSuffix(calleeName(info, call), "/js.hasSideEffects") {
+				judged = true
+				_ = call
+			}
+		}
+		if !underClass {
+			continue
+		}
+		n++
+		c.R.Check(judged && classVal != "_" && classVal != "", rule, fmt.Sprintf("js.optimizeStmt/class declaration dropped#%d only without side effects", n), c.pos(rs), "behind !hasSideEffects(the class)", "a block holding only a class declaration is replaced by an empty statement without asking whether defining the class has side effects: `{class A extends f(){}}` → nothing, f is never called")
+	}
+	c.R.Floor(rule, "class declarations dropped in optimizeStmt", n, 1)
+}
+
+// R01.22: dropping the trailing `undefined` of a returned comma list drops the `return` with it.
+func (c *Ctx) r0122(pk *packages.Package) {
+	const rule = "R01.22"
+	c.R.Rule(rule, "at the end of a function body optimizeStmtList simplifies `return a,void 0` to the statement `a` — the function then returns undefined by running off its end. The same must hold for longer lists: wherever the last element of a returned *js.CommaExpr is removed because it is undefined (an assignment `X.List = X.List[:len(X.List)-1]` dominated by isUndefined of that last element), the return statement itself is replaced by an expression statement (an assignment of a *js.ExprStmt to the list slot) on every path to the function's exit; otherwise `return a,b,void 0` becomes `return a,b`, which returns b")
+	info := pk.TypesInfo
+	fd := c.fn(rule, pk, "optimizeStmtList")
+	if fd == nil {
+		return
+	}
+	g := c.graph(pk, fd)
+	n := 0
+	for _, y := range g.Nodes {
+		as, ok := y.Stmt.(*ast.AssignStmt)
+		if !ok || y.Kind != flow.KStmt || len(as.Lhs) != 1 || len(as.Rhs) != 1 {
+			continue
+		}
+		l := nospace(str(as.Lhs[0]))
+		if !strings.HasSuffix(l, ".List") || nospace(str(as.Rhs[0])) != l+"[:len("+l+")-1]" {
+			continue
+		}
+		underUndef := false
+		for _, f := range g.DomFacts(y) {
+			if f.Value && f.Test.Kind == flow.KCond && strings.Contains(nospace(str(f.Test.Expr)), "isUndefined("+l+"[len("+l+")-1])") {
+				underUndef = true
+			}
+		}
+		if !underUndef {
+			continue
+		}
+		n++
+		becomesExprStmt := func(q *flow.Node) bool {
+			a2, ok := q.Stmt.(*ast.AssignStmt)
+			if !ok || q.Kind != flow.KStmt || len(a2.Rhs) != 1 {
+				return false
+			}
+			ue, ok := ast.Unparen(a2.Rhs[0]).(*ast.UnaryExpr)
+			if !ok || ue.Op != token.AND {
+				return false
+			}
+			cl, ok := ue.X.(*ast.CompositeLit)
+			return ok && namedTypeName(info.TypeOf(cl)) == pjs+".ExprStmt"
+		}
+		p := g.Path(flow.Search{From: []*flow.Node{y}, Goal: func(q *flow.Node) bool { return q.Kind == flow.KExit || retStmt(q) != nil }, Avoid: becomesExprStmt})
+		c.R.Check(p == nil, rule, fmt.Sprintf("js.optimizeStmtList/trailing undefined removed from a returned list#%d", n), c.pos(as), "the return statement becomes an expression statement", "the trailing `undefined` is removed from the returned comma list but the list is still returned: `function f(){return a,b,void 0}` → `function f(){return a,b}` returns b instead of undefined")
+	}
+	c.R.Floor(rule, "trimmed returned comma lists", n, 1)
+}
